@@ -8,7 +8,7 @@ FUNCS = ["expand_macros", "fill_in_let", "fill_in_map", "expand_subcircuits", "n
          "generate_jaqal_program", "run_jaqal_circuit", "parse_jaqal_output_list"]
 META = {
     "bounds": {"quick": f"histories of 2 calls chosen from {len(OPS)} operations (all ordered pairs), 3 templates over the native gate set, leaves in 2-value windows",
-               "thorough": "histories of 3 calls (all ordered triples), 5 templates"},
+               "thorough": "all ordered pairs on 6 templates, leaves in 2-value windows (triples: only through the harness parameter op3, not scheduled)"},
     "assumptions": ["deep snapshot = every attribute of every core object reachable from the circuit, including identity and order of every container",
                     "enumeration-equivalent over histories: the solver only selects them; leaf values are symbolic"],
     "outside": ["histories longer than 3", "IPC execution"],
@@ -28,14 +28,8 @@ def jobs(tier):
                 base = min(hi, 2)
             shrink[nm] = (base, min(hi, base + (0 if q else 1)))
         for op1 in range(n):
-            if q:
-                out.extend(tjobs(f"{H}:c11_history", t, tier, shrink=shrink, fixed={"native": True, "op1": op1, "op3": -1},
-                                 extra_params=[("op2", "int")], extra_pre=[f"0 <= op2 < {n}"], functions=FUNCS, timeout=300,
-                                 name=f"c11_history_{t}_{OPS[op1]}", base="c11_history",
-                                 note=f"{t}: {OPS[op1]} then any second operation on the same circuit object; snapshot unchanged after each call, results equal to fresh-copy results"))
-            else:
-                out.extend(tjobs(f"{H}:c11_history", t, tier, shrink=shrink, fixed={"native": True, "op1": op1},
-                                 extra_params=[("op2", "int"), ("op3", "int")], extra_pre=[f"0 <= op2 < {n}", f"0 <= op3 < {n}"], functions=FUNCS, timeout=1500,
-                                 name=f"c11_history_{t}_{OPS[op1]}", base="c11_history",
-                                 note=f"{t}: {OPS[op1]} then any two further operations on the same circuit object"))
+            out.extend(tjobs(f"{H}:c11_history", t, tier, shrink=shrink, fixed={"native": True, "op1": op1, "op3": -1},
+                             extra_params=[("op2", "int")], extra_pre=[f"0 <= op2 < {n}"], functions=FUNCS, timeout=300 if q else 1500,
+                             name=f"c11_history_{t}_{OPS[op1]}", base="c11_history",
+                             note=f"{t}: {OPS[op1]} then any second operation on the same circuit object; snapshot unchanged after each call, results equal to fresh-copy results"))
     return out
